@@ -113,6 +113,8 @@ class Model:
             except SyntaxError as e:  # a tree that does not compile is not analysable
                 raise AnalysisError(f"{path}: syntax error {e}")
             parsed.append((modname, path, source, tree))
+        from .canon import canonicalise
+        self.canonical = canonicalise(parsed)
         self.flattened = self._flatten_private_imports(parsed)
         from .desugar import desugar_module, exported_generators
         # generator helpers one module imports from another are expanded like its own, provided every global name their code
